@@ -68,10 +68,35 @@ func decOp(tag string, s *ref.Struct, msg []byte, prior *ref.Val) histOp {
 	}}
 }
 
+// populated returns a pointer to a value of the static struct type rt with its
+// pointer and slice-of-pointer fields set two levels deep (so that encoding walks nested descriptors).
+func populated(rt reflect.Type, depth int) reflect.Value {
+	v := reflect.New(rt)
+	if depth == 0 {
+		return v
+	}
+	e := v.Elem()
+	for i := 0; i < e.NumField(); i++ {
+		f := e.Field(i)
+		switch {
+		case f.Kind() == reflect.Ptr && f.Type().Elem().Kind() == reflect.Struct:
+			if f.Type().Elem() == rt && depth < 2 {
+				continue
+			}
+			f.Set(populated(f.Type().Elem(), depth-1))
+		case f.Kind() == reflect.Slice && f.Type().Elem().Kind() == reflect.Ptr:
+			f.Set(reflect.Append(f, populated(f.Type().Elem().Elem(), depth-1)))
+		case f.Kind() == reflect.Int32:
+			f.SetInt(3)
+		}
+	}
+	return v
+}
+
 func staticOps(tag string, rt reflect.Type) []histOp {
 	return []histOp{
-		{tag + ":size(ptr)", func() string { return obsSize(Size(reflect.New(rt).Interface())) }},
-		{tag + ":enc(val)", func() string { b := make([]byte, 64); return obsEnc(Enc(b, reflect.New(rt).Elem().Interface()), b) }},
+		{tag + ":size(ptr)", func() string { return obsSize(Size(populated(rt, 2).Interface())) }},
+		{tag + ":enc(val)", func() string { b := make([]byte, 256); return obsEnc(Enc(b, populated(rt, 2).Elem().Interface()), b) }},
 		{tag + ":dec", func() string {
 			dst := reflect.New(rt)
 			r := Dec([]byte{8, 0, 1, 0, 0, 0, 9, 0}, dst.Interface())
